@@ -154,3 +154,90 @@ func extractC08(repo string, o *Out) {
 	}
 	o.bool("apiInitFirst", apiOK, "api.go Init: the generator is installed only after seq.Init() succeeded, with DefaultSeqStep")
 }
+
+func init() {
+	inner := extractors["C08"]
+	extractors["C08"] = func(repo string, o *Out) {
+		inner(repo, o)
+		if p, err := load(repo, "x/uuid"); err == nil {
+			translateC08(p, o)
+		} else {
+			o.problem("translate: load: %v", err)
+		}
+	}
+}
+
+// translateC08 emits the int64 arithmetic of SeqIDGen.reload and SeqIDGen.Next (translate.go) as functions of the fields and
+// locals it reads: what reload stores in lastID, its segment end and overflow test; the candidate id, segment end and
+// in-segment test of Next. The expressions are found by their place, not by the names of the locals.
+func translateC08(p *Pkg, o *Out) {
+	tr := newTr(p, o, 64)
+	defer tr.Emit("Tr")
+	// initialisers of the single-name local declarations (var x = e / x := e) of a function, in source order
+	inits := func(fd *ast.FuncDecl) []ast.Expr {
+		var out []ast.Expr
+		if fd == nil || fd.Body == nil {
+			return nil
+		}
+		ast.Inspect(fd.Body, func(n ast.Node) bool {
+			switch x := n.(type) {
+			case *ast.ValueSpec:
+				if len(x.Names) == 1 && len(x.Values) == 1 {
+					out = append(out, x.Values[0])
+				}
+			case *ast.AssignStmt:
+				if x.Tok == token.DEFINE && len(x.Lhs) == 1 && len(x.Rhs) == 1 {
+					out = append(out, x.Rhs[0])
+				}
+			}
+			return true
+		})
+		return out
+	}
+	// conditions of the plain `if` statements at the top level of the body, in source order
+	conds := func(fd *ast.FuncDecl) []ast.Expr {
+		var out []ast.Expr
+		if fd == nil || fd.Body == nil {
+			return nil
+		}
+		for _, s := range fd.Body.List {
+			if is, ok := s.(*ast.IfStmt); ok && is.Init == nil {
+				out = append(out, is.Cond)
+			}
+		}
+		return out
+	}
+	at := func(l []ast.Expr, i int) ast.Expr {
+		if i < len(l) {
+			return l[i]
+		}
+		return nil
+	}
+	reload := p.Func("SeqIDGen", "reload")
+	var stored ast.Expr
+	n := 0
+	if reload != nil && reload.Body != nil {
+		ast.Inspect(reload.Body, func(x ast.Node) bool {
+			if as, ok := x.(*ast.AssignStmt); ok && as.Tok == token.ASSIGN && len(as.Lhs) == len(as.Rhs) {
+				for i, l := range as.Lhs {
+					if sel, ok := l.(*ast.SelectorExpr); ok && sel.Sel.Name == "lastID" {
+						stored = as.Rhs[i]
+						n++
+					}
+				}
+			}
+			return true
+		})
+	}
+	if n != 1 {
+		stored = nil
+	}
+	tr.Expr("reload_lastID", reload, stored, "SeqIDGen.reload: the value assigned to s.lastID")
+	// reload's locals: [0] is the tuple `counter, err := s.store.Incr()` (not single-name), so the first single-name one is rangeEnd
+	tr.Expr("reload_rangeEnd", reload, at(inits(reload), 0), "SeqIDGen.reload: the initialiser of its first single-name local (rangeEnd)")
+	tr.Expr("reload_overflow", reload, at(conds(reload), 1), "SeqIDGen.reload: the condition of its second top-level if (the overflow test)")
+	next := p.Func("SeqIDGen", "Next")
+	tr.Expr("Next_next", next, at(inits(next), 0), "SeqIDGen.Next: the initialiser of its first local (next)")
+	tr.Expr("Next_rangeEnd", next, at(inits(next), 1), "SeqIDGen.Next: the initialiser of its second local (rangEnd)")
+	tr.Expr("Next_inRange", next, at(conds(next), 0), "SeqIDGen.Next: the condition of its first top-level if (still inside the segment)")
+}
